@@ -65,6 +65,7 @@ type httpResp struct {
 	Code  int
 	Body  string
 	Panic string
+	Hang  bool `json:",omitempty"` // the watchdog (fuel context) fired
 }
 
 func httpDo(e *echo.Echo, method, path, body string) (r httpResp) {
@@ -224,6 +225,9 @@ type scoreBody struct {
 func coqScores(r httpResp, withStats bool) (string, string) {
 	if r.Panic != "" {
 		return "CPanic", "None"
+	}
+	if r.Hang {
+		return "CHang", "None"
 	}
 	switch r.Code {
 	case 200:
